@@ -51,6 +51,10 @@ class EncModel:
                         if mode != "counter" and (quick and form != "compact"):
                             continue
                         menu.append((alg, kind, enc, form, mode))
+        # a relay: decrypt a JSON token, put a fresh header / recipient on the returned object, encrypt it again
+        for enc in ENCS:
+            for form in ("flattened", "general"):
+                menu.append(("relay:A128KW" if ENC[enc][0] != "xc20p" else "relay:A256KW", "oct16" if ENC[enc][0] != "xc20p" else "oct32", enc, form, "counter"))
         self.MENU = menu
 
     def make(self):
@@ -76,9 +80,25 @@ class EncModel:
         seam.install()
         seam.mode = mode
         start = seam.begin_call(f"call{st['n']}")
+        relay_iv = None
         try:
-            hdr = {"alg": alg, "enc": enc}
-            r = scen.jwe_encrypt(form, hdr, b"plaintext", key, None, sender_key=sender, registry=st["registry"], aad=None)
+            if alg.startswith("relay:"):
+                alg = alg[6:]
+                src = rjwe.encrypt({"alg": alg, "enc": enc}, b"plaintext", [{"jwk": jwk}], form=form, rand=rjwe.Drbg(repr(op).encode()), param_pos="protected")
+                relay_iv = rjwe.parse(src)["iv"]
+                priv = A.jkey(jwk, "dict")
+
+                def relay():
+                    obj = jwe.decrypt_json(src, priv, registry=st["registry"])
+                    obj.protected = {"alg": alg, "enc": enc}       # a fresh header object, equal values
+                    obj.add_recipient(None, key) if form == "general" else obj.add_recipient(None, key)
+                    if form == "general":
+                        obj.recipients = obj.recipients[-1:]
+                    return jwe.encrypt_json(obj, None, registry=st["registry"])
+                r = call(relay)
+            else:
+                hdr = {"alg": alg, "enc": enc}
+                r = scen.jwe_encrypt(form, hdr, b"plaintext", key, None, sender_key=sender, registry=st["registry"], aad=None)
         finally:
             draws = seam.log[start:]
             insecure = list(seam.insecure_uses)
@@ -119,6 +139,8 @@ class EncModel:
             elif traced and value != (b"\x00" if mode == "zero" else b"\xff") * len(value):
                 out["viol"].append((f"{name} has fixed bits: it is not the generator's answer bit for bit", f"{alg} {enc} mode={mode}: {value.hex()}"))
         fresh("content encryption IV", t["iv"], ENC[enc][2])
+        if relay_iv is not None and t["iv"] == relay_iv:
+            out["viol"].append(("re-encrypting a decrypted object reuses the IV of the token it came from", f"{alg} {enc} {form}: {relay_iv.hex()}"))
         merged = {}
         merged.update(t["protected"])
         merged.update(t["unprotected"] or {})
@@ -160,7 +182,8 @@ class EncModel:
         return out
 
     def canon(self, st):
-        return (canon_modules(), canon_obj({k: v[0] for k, v in st["keys"].items()}), canon_obj(st["senders"]), canon_obj(st["registry"]))
+        from ..history import canon_state
+        return canon_state({k: v[0] for k, v in st["keys"].items()}, st["senders"], st["registry"])
 
     def bucket(self, obs):
         return f"{obs['op'][0].split('+')[0]}:{obs['op'][4]}:{'bad' if obs['viol'] else 'ok'}:{obs.get('ndraws')}:traced={obs.get('traced', 0)}/{obs.get('traced', 0) + obs.get('untraced', 0)}"
@@ -181,7 +204,7 @@ def histories(tier):
 
 
 # ------------------------------------------------------------------ key generation
-GEN = [("oct", 8), ("oct", 128), ("oct", 256), ("oct", 512), ("RSA", 1024), ("RSA", 2048), ("EC", "P-256"), ("EC", "P-384"), ("EC", "P-521"), ("EC", "secp256k1"),
+GEN = [("oct", 8), ("oct", 128), ("oct", 256), ("oct", 512), ("RSA", 512), ("RSA", 768), ("RSA", 1016), ("RSA", 1024), ("RSA", 2048), ("EC", "P-256"), ("EC", "P-384"), ("EC", "P-521"), ("EC", "secp256k1"),
        ("OKP", "Ed25519"), ("OKP", "Ed448"), ("OKP", "X25519"), ("OKP", "X448")]
 
 
@@ -201,6 +224,7 @@ def h_generate(ctx):
     n = (8 if arg == 1024 else 3) if kt == "RSA" else 64
     seam.install()
     start = seam.begin_call("gen")
+    refused = None
     try:
         keys = []
         cls = {"oct": OctKey, "RSA": RSAKey, "EC": ECKey, "OKP": OKPKey}[kt]
@@ -214,12 +238,18 @@ def h_generate(ctx):
             if kt == "oct":
                 return Outcome("n/a", [], nontrivial=None)
             keys = [cls.generate_key(arg, private=False) for _ in range(n)]
+    except ValueError as e:
+        refused = e       # a size the backend does not offer may be refused, it must not silently become another size
     finally:
         draws = [v for (_, _, v) in seam.log[start:]]
         insecure = list(seam.insecure_uses)
         seam.insecure_uses.clear()
         seam.uninstall()
     vs = []
+    if refused is not None:
+        if kt == "RSA" and arg < 1024:
+            return Outcome("size-refused", [], nontrivial=(kt, arg, via))
+        return Outcome("generate-failed", [viol(f"generate_key fails for a supported {kt} size / curve", f"{arg} via {via}: {refused!r}")], nontrivial=(kt, arg, via))
     mats = [material(k) for k in keys]
     if len({m[0] for m in mats}) != len(mats) and not (kt == "oct" and arg < 64):
         vs.append(viol(f"generated {kt} keys are not pairwise distinct ({via})", f"{arg}: {len({m[0] for m in mats})} distinct of {len(mats)}"))
